@@ -299,6 +299,11 @@ func spec_isMsg(v any) bool { m, ok := v.(*Message); return ok && m != nil }
 //@     forall x *list.Element :: { vcIn(ghost_lmem(all), x) } vcIn(ghost_lmem(all), x) ==>
 //@        vcHas(s.boxes, x.Value.(*Message).mailbox) && vcHas(s.boxes[x.Value.(*Message).mailbox].messages, x.Value.(*Message).id)
 
+// The store runs with exactly the configured message cap (C08) and the host it was given (C16).
+//@ func New
+//@   ensures[configuredCap C08] ret1 == nil ==> ret0.(*Store) != nil && ret0.(*Store).cap == cfg.MailboxMsgCap && ret0.(*Store).extHost == extHost
+//@   serves C08 C16
+
 //@ func (*Store).maxSizeEnforcer
 //@   requires spec_storeOK(s) && maxSize >= 0 && s.incoming != nil && s.remove != nil
 //@   modifies *
